@@ -41,6 +41,7 @@ def step? : Sexp → Option Step
     let f ← (match f with | .atom "-" => some none | x => (bytes? x).map some)
     some (.reopen (← bool? a) (← bool? b) (← bool? c) t f)
   | .list [.atom "close", a] => do some (.close (← bool? a))
+  | .list [.atom "doer"] => some .doer
   | _ => none
 
 def outStage (s : St) (r : Except Exn Unit) : Sexp :=
@@ -58,8 +59,17 @@ def runSteps (c : Cfg) (s : St) : List Step → List Sexp
     | .ok _ => outStage s' r :: runSteps c s' rest
     | .error _ => [outStage s' r]
 
+/-- the state when the step list stops (at its end or at the first exception) -/
+def endState (c : Cfg) (s : St) : List Step → St
+  | [] => s
+  | st :: rest =>
+    let (s', r) := step c s st
+    match r with
+    | .ok _ => endState c s' rest
+    | .error _ => s'
+
 def handle : Sexp → Sexp
-  | .list [.atom "filer", name, base, temp, clean, filed, ext, fext, head, temph, .list init, .list steps] =>
+  | .list [.atom "filer", name, base, temp, clean, filed, ext, fext, head, temph, .list init, .list steps, entry] =>
     match bytes? name, bytes? base, bool? temp, bool? clean, bool? filed, bool? ext, bytes? fext, path? head, path? temph,
         init.mapM entry?, steps.mapM step? with
     | some name, some base, some temp, some clean, some filed, some ext, some fext, some head, some temph, some init, some steps =>
@@ -67,7 +77,15 @@ def handle : Sexp → Sexp
       let s0 : St := fresh c init
       let (s1, r) := reopen c s0 false false clean none none
       match r with
-      | .ok _ => .list (outSnap init :: outStage s1 r :: runSteps c s1 steps)
+      | .ok _ =>
+        let body := runSteps c s1 steps
+        match entry with
+        | .list [.atom "ctx", cl] =>
+          -- the with-block ends (normally or by the exception of a step): the context manager's `finally` runs
+          let sEnd := endState c s1 steps
+          let (s2, r2) := step c sEnd (.exit ((bool? cl).getD false))
+          .list (outSnap init :: outStage s1 r :: (body ++ [outStage s2 r2]))
+        | _ => .list (outSnap init :: outStage s1 r :: body)
       | .error _ => .list [outSnap init, outStage s1 r]
     | _, _, _, _, _, _, _, _, _, _, _ => sym "bad-request"
   | _ => sym "bad-request"
